@@ -6,7 +6,14 @@ parameters of the Lean definition), tuple-constant indexing, + - * // % ^ & | un
 constant (`* 2^k`, floor division by `2^k`), abs(), min(), max(), int() of an int, divmod() and tuple
 assignment, comparisons (chained), and/or/not, truth value of an int, conditional expressions, and
 statement lists made of Assign / AugAssign / If / Return / Raise (a `raise` listed in `raises` becomes
-a sentinel value).  A function returning a tuple is translated once per component.  Anything else
+a sentinel value).  A local bound to a tuple-valued expression (e.g. `buf = bytearray(self._buffer)` when
+the glue maps that view to the byte parameters) is an alias: `buf[i]` are those components.  A call of a
+helper of the same class (`self.m(..)`, `cls.m(..)`, `ClassName.m(..)`; staticmethod, classmethod or
+method) or of a function of the same module whose body is itself in the subset is inlined as a closed
+Lean term: an argument that is a bare name or attribute is substituted textually (so that the glue's
+source-text mappings `len(name)` .. still apply), any other argument must be an int expression and is
+bound once to a fresh name; depth limit
+and cycle check; free names of the callee must be module-level int constants.  A function returning a tuple is translated once per component.  Anything else
 raises Unsupported; the
 generator then emits `unsupported := true` for that function so that the tie is reported as lost
 (the hand-written model + correspondence remain).
@@ -46,6 +53,123 @@ class Tr(object):
         self.hooks = list(hooks)      # functions (tr, stmt, rest, result) -> Lean text or None
         self.tuples = {}              # local name bound to a tuple -> list of Lean names
         self.fresh = 0
+        self.scope = None             # (class or None, module) of the function being translated
+        self.stack = ()               # qualified names of the helpers being inlined (cycle check)
+
+    MAX_INLINE_DEPTH = 3
+
+    def set_scope(self, fn_obj):
+        """Where helper calls are resolved: the module and (if any) class of the translated function."""
+        fn = getattr(fn_obj, 'fget', None) or getattr(fn_obj, '__func__', None) or fn_obj
+        module = inspect.getmodule(fn)
+        cls = None
+        parts = getattr(fn, '__qualname__', '').split('.')
+        if len(parts) >= 2 and '<locals>' not in parts:
+            cls = getattr(module, parts[-2], None)
+            if not inspect.isclass(cls):
+                cls = None
+        self.scope = (cls, module)
+        self.stack = (getattr(fn, '__qualname__', repr(fn)),)
+        return self
+
+    def fresh_name(self, base):
+        self.fresh += 1
+        return '%s__%d' % (base, self.fresh)
+
+    def helper(self, n):
+        """Resolve a call node to (function object, bound): a helper of the same class or module, else None."""
+        if self.scope is None or n.keywords or any(isinstance(a, ast.Starred) for a in n.args):
+            return None
+        cls, module = self.scope
+        f = n.func
+        if isinstance(f, ast.Name):
+            obj = getattr(module, f.id, None)
+            if inspect.isfunction(obj) and inspect.getmodule(obj) is module:
+                return obj, False
+            return None
+        if isinstance(f, ast.Attribute) and isinstance(f.value, ast.Name) and cls is not None \
+                and f.value.id in ('self', 'cls', cls.__name__):
+            try:
+                raw = inspect.getattr_static(cls, f.attr)
+            except AttributeError:
+                return None
+            if isinstance(raw, staticmethod):
+                return raw.__func__, False
+            if isinstance(raw, classmethod):
+                return raw.__func__, True
+            if inspect.isfunction(raw) and f.value.id == 'self':
+                return raw, True       # ordinary method called on self: first parameter is self
+        return None
+
+    def inline(self, n, kind):
+        """Inline the call `n` of a helper; kind: 'int' | 'bool'.  Returns Lean text or None if `n` is no helper."""
+        found = self.helper(n)
+        if found is None:
+            return None
+        fn, bound = found
+        qual = fn.__qualname__
+        if qual in self.stack:
+            raise Unsupported('recursive helper ' + qual)
+        if len(self.stack) > self.MAX_INLINE_DEPTH:
+            raise Unsupported('helper calls nested too deeply at ' + qual)
+        fa = function_ast(fn)
+        a = fa.args
+        if a.vararg or a.kwarg or a.kwonlyargs or a.posonlyargs or a.defaults:
+            raise Unsupported('helper %s has a non-plain signature' % qual)
+        params = [x.arg for x in a.args]
+        if bound:
+            params = params[1:]
+        if len(params) != len(n.args):
+            raise Unsupported('helper %s called with %d arguments' % (qual, len(n.args)))
+        body = [st for st in fa.body if not (isinstance(st, ast.Expr) and isinstance(st.value, ast.Constant))]
+        # free names of the callee: only parameters, its own locals, the supported builtins, int constants of its module
+        assigned = {t.id for st in body for t in ast.walk(st) if isinstance(t, ast.Name) and isinstance(t.ctx, ast.Store)}
+        module = inspect.getmodule(fn)
+        sub = Tr(dict(self.consts), calls=dict(self.calls), bools=dict(self.bools), raises=dict(self.raises),
+                 ret_bool=(kind == 'bool'), hooks=self.hooks)
+        sub.scope = (self.scope[0] if bound or '.' in qual else None, module)
+        if '.' in qual:
+            owner = getattr(module, qual.split('.')[-2], None)
+            sub.scope = (owner if inspect.isclass(owner) else None, module)
+        sub.stack = self.stack + (qual,)
+        sub.fresh = self.fresh + 100 * len(sub.stack)
+        for node in (x for st in body for x in ast.walk(st)):
+            if isinstance(node, ast.Name) and isinstance(node.ctx, ast.Load):
+                nm = node.id
+                if nm in params or nm in assigned or nm in ('self', 'cls', 'abs', 'min', 'max', 'int', 'bool', 'len', 'divmod') \
+                        or nm == (sub.scope[0].__name__ if sub.scope[0] else None):
+                    continue
+                val = getattr(module, nm, None)
+                if isinstance(val, int) and not isinstance(val, bool):
+                    sub.consts.setdefault(nm, val)
+                elif not inspect.isfunction(val):
+                    raise Unsupported('helper %s uses the free name %s' % (qual, nm))
+        # bind the arguments
+        lets, rename, subst = '', {}, {}
+        for prm, arg in zip(params, n.args):
+            root = arg
+            while isinstance(root, ast.Attribute):
+                root = root.value
+            if isinstance(arg, (ast.Name, ast.Attribute)) and isinstance(root, ast.Name) and root.id not in assigned \
+                    and prm not in assigned:
+                # a bare name / attribute (int or not, e.g. bytes): substituted textually, so that the
+                # source-text mappings of the glue (`len(name)`, `self._x`) apply inside the helper;
+                # no capture: the helper assigns neither that name nor the parameter
+                subst[prm] = arg
+            else:
+                fresh = self.fresh_name(prm)
+                lets += 'let %s : Int := %s\n  ' % (fresh, self.expr(arg))
+                rename[prm] = fresh
+
+        class Bind(ast.NodeTransformer):
+            def visit_Name(self, node):
+                if node.id in rename:
+                    return ast.copy_location(ast.Name(id=rename[node.id], ctx=node.ctx), node)
+                if node.id in subst and isinstance(node.ctx, ast.Load):
+                    return ast.copy_location(ast.parse(ast.unparse(subst[node.id]), mode='eval').body, node)
+                return node
+        body = [ast.fix_missing_locations(Bind().visit(st)) for st in body]
+        return '(%s%s)' % (lets, sub.stmts(body, 'false' if kind == 'bool' else '0'))
 
     def src(self, node):
         return ast.unparse(node)
@@ -88,6 +212,9 @@ class Tr(object):
             if fname == 'int' and len(n.args) == 1 and not n.keywords:
                 # int() of a value that is already an int in this translation
                 return self.expr(n.args[0])
+            inl = self.inline(n, 'int')
+            if inl is not None:
+                return inl
             raise Unsupported('call ' + key)
         if isinstance(n, ast.Subscript):
             vkey = self.src(n.value)
@@ -172,14 +299,24 @@ class Tr(object):
             return n.id
         if isinstance(n, ast.IfExp):
             return '(if %s then %s else %s)' % (self.cond(n.test), self.cond(n.body), self.cond(n.orelse))
+        if isinstance(n, ast.Call) and self.helper(n) is not None and self.helper_returns_bool(n):
+            return self.inline(n, 'bool')
         # truth value of an int
         return '(decide (%s ≠ (0 : Int)))' % self.expr(n)
+
+    def helper_returns_bool(self, n):
+        """Every `return` of the helper is syntactically a truth value."""
+        fa = function_ast(self.helper(n)[0])
+        rets = [x for x in ast.walk(fa) if isinstance(x, ast.Return)]
+        probe = Tr({}, bools=self.bools)
+        return bool(rets) and all(r.value is not None and probe.is_bool(r.value) for r in rets)
 
     def is_bool(self, n):
         return isinstance(n, (ast.Compare, ast.BoolOp)) or (isinstance(n, ast.UnaryOp) and isinstance(n.op, ast.Not)) \
             or (isinstance(n, ast.Name) and n.id in self.bool_names) or self.src(n) in self.bools \
             or (isinstance(n, ast.Constant) and isinstance(n.value, bool)) \
-            or (isinstance(n, ast.Call) and isinstance(n.func, ast.Name) and n.func.id == 'bool')
+            or (isinstance(n, ast.Call) and isinstance(n.func, ast.Name) and n.func.id == 'bool') \
+            or (isinstance(n, ast.Call) and self.helper(n) is not None and self.helper_returns_bool(n))
 
     def stmts(self, body, result):
         """Statement list -> Lean expression; `result` is the Lean text of the value if the list falls through."""
@@ -214,6 +351,20 @@ class Tr(object):
             return out + self.stmts(rest, result)
         if isinstance(s, ast.Assign) and len(s.targets) == 1 and isinstance(s.targets[0], ast.Name):
             name = s.targets[0].id
+            items = None
+            if not self.is_bool(s.value):
+                try:
+                    items = self.tuple_expr(s.value)
+                except Unsupported:
+                    items = None
+            if items is not None:
+                # alias of a tuple-valued thing (a buffer view, a tuple): the components are bound once, here
+                names = [self.fresh_name('%s_%d' % (name, i)) for i in range(len(items))]
+                self.bool_names.discard(name)
+                self.tuples[name] = names
+                return ''.join('let %s : Int := %s\n  ' % (v, t) for v, t in zip(names, items)) \
+                    + self.stmts(rest, result)
+            self.tuples.pop(name, None)
             if self.is_bool(s.value):
                 self.bool_names.add(name)
                 return 'let %s : Bool := %s\n  %s' % (name, self.cond(s.value), self.stmts(rest, result))
